@@ -183,10 +183,16 @@ class Setup:
         kind = rng.choice(["as-is", "bit-flip", "byte-flip", "truncate", "splice", "reorder", "before-greeting",
                            "undecodable-payload", "unknown-type", "bad-magic", "over-limit-length", "random-bytes",
                            "huge-list-length", "multi-flip", "garbage-after-frame", "valid-content-before-greeting",
-                           "request-then-close", "request-then-reset", "peer-book-story"])
+                           "request-then-close", "request-then-reset", "peer-book-story", "early-block-story"])
         greeted = kind not in ("before-greeting", "valid-content-before-greeting")
         if kind == "peer-book-story":
             return "peers", kind, b"", True         # (built in run(), once the connection's address is known)
+        if kind == "early-block-story":
+            built = self.early_block() if rng.random() < 0.5 else None
+            if built is None:
+                kind = "as-is"
+            else:
+                return built[0], kind, built[1], True
         if kind == "valid-content-before-greeting":
             # out of protocol order: perfectly valid NEW content, but sent before the greeting -> must change nothing
             world, sn = self.world, self.sn
@@ -263,6 +269,59 @@ class Setup:
         else:
             data = objgen.rb(rng, rng.choice([1, 3, 4, 8, 9, 60, 500]))
         return name, kind, data, greeted
+
+    def early_block(self):
+        """a rule-breaking block (of any class) stamped just inside / at / just beyond the node's tolerance for timestamps ahead
+        of its clock; afterwards the node's clock moves on past the stamp and its timers fire.  The block breaks its rule at
+        every clock value, so it must never change anything.  (name, frame) or None"""
+        world, sn, rng = self.world, self.sn, self.rng
+        head = sn.cm.coinstate.current_chain_hash
+        if head not in world.chain.blocks:
+            return None
+        classes = c09.all_classes()
+        names = [n for n in sorted(classes) if not n.startswith("valid") and n not in (
+            "reward-exactly-at-bound", "reward-below-bound", "exact-spend-fee-zero", "reward-split-outputs", "oversize")]
+        for _try in range(4):
+            name = rng.choice(names)
+            try:
+                built = classes[name](world, head, rng)
+                if not built:
+                    continue
+                rb = built[0]
+                now = sn.net.clock.t
+                rb.ts = max(world.chain.blocks[rb.prev].ts + 1, now + rng.choice([29, 30, 31, 31, 35, 45, 59, 60, 61]))
+                rb._enc = rb._id = None
+                rb = world.mine(rb)
+            except Exception:
+                continue
+            if not ref.block_codes(world.chain, rb, rb.ts + 1000):
+                continue        # (valid once the clock has caught up: not a rule-breaking block)
+            self.mon.c["early_block_stories"] = self.mon.c.get("early_block_stories", 0) + 1
+            return "data-invalid-block-stamped-ahead:" + name, sn.wire.block(bridge.rblock_to_real(rb))
+        return None
+
+    def clock_moves_on(self):
+        """the node's clock advances past what was 'the future' a moment ago and its timers fire; corpus frames that were
+        rule-breaking only because of their stamp are dropped from the corpus"""
+        sn, rng, world = self.sn, self.rng, self.world
+        for _ in range(rng.choice([1, 2])):
+            sn.net.clock.t += rng.choice([31, 40, 65, 90])
+            sn.net.do_step(sn.node)
+            sn.settle()
+        world.now = sn.net.clock.t
+        kept = []
+        for name, fr in self.corpus:
+            if name.startswith("data-invalid-block") and ("future" in name or "stamped-ahead" in name):
+                try:
+                    payloads, _r, _rest = ref.parse_frames(fr)
+                    _hdr, body = ref.parse_msg_header(payloads[0])
+                    rb = ref.dec_block(body[5:], strict=False)[0]
+                    if rb.prev in world.chain.blocks and not ref.block_codes(world.chain, rb, world.now):
+                        continue
+                except Exception:
+                    pass
+            kept.append((name, fr))
+        self.corpus = kept
 
     def peer_book_story(self, host):
         """out-of-order and oversized peer-book traffic on ONE connection: a second greeting naming another listening port, and
@@ -462,6 +521,7 @@ class Setup:
                  "kind": kind, "base_frame": name, "pool": [t.enc().hex() for t in self.pooled]}
             if story:
                 w["peer_book_story"] = story
+            w["clock"] = sn.net.clock.t
             frag = rng.random() < 0.5
             c["fragmented_streams"] += frag
             conn_bytes += data
@@ -484,6 +544,8 @@ class Setup:
                 sn.settle(fragment=frag)
                 sn.net.do_step(sn.node)
                 sn.settle()
+                if kind == "early-block-story":
+                    self.clock_moves_on()
                 if kind == "peer-book-story":
                     # the node works through its peer book: several manager steps, its connection attempts answered (refused
                     # by the nonsense addresses, accepted by the listening ones, which may greet back, stay silent or hang up)
@@ -834,6 +896,8 @@ def replay(mon, w):
     if w.get("greeted", True):
         simnet.greet(sn.net, sn.node, hostile, sn.wire, nonce=6660)
     listeners = [sn.net.raw_listen(tuple(a)) for a in story["listening"]] if story else []
+    if "clock" in w:
+        sn.net.clock.t = max(sn.net.clock.t, w["clock"])
     before = st.fingerprint()
     stream_hex = w.get("stream_with_earlier_bytes_on_this_connection") or w["stream"]
     w = dict(w, stream=stream_hex)
@@ -841,6 +905,11 @@ def replay(mon, w):
     sn.settle()
     sn.net.do_step(sn.node)
     sn.settle()
+    if w.get("kind") == "early-block-story":
+        for adv in (31, 40, 65):
+            sn.net.clock.t += adv
+            sn.net.do_step(sn.node)
+            sn.settle()
     if story:
         for answer in (False, True, True, False):
             sn.net.do_step(sn.node)
@@ -901,7 +970,7 @@ def finalize(m, tier):
               ("reads_failed_on_a_reset_connection", c.get("reads_failed_on_a_reset_connection", 0), 100),
               ("noninterference_baseline_downloads_complete", c.get("noninterference_baseline_downloads_complete", 0), 100),
               ("hostile_gone_in_noninterference", c.get("hostile_gone_in_noninterference", 0), 150),
-              ("peer_book_stories", c.get("peer_book_stories", 0), 200),
+              ("peer_book_stories", c.get("peer_book_stories", 0), 200), ("early_block_stories", c.get("early_block_stories", 0), 100),
               ("peer_book_connections_made_by_the_node", c.get("peer_book_connections_made_by_the_node", 0), 200)]
     for k in ("bit-flip", "truncate", "splice", "reorder", "undecodable-payload", "unknown-type", "bad-magic", "over-limit-length",
               "random-bytes", "huge-list-length"):
